@@ -109,7 +109,7 @@ def gen_case(rng):
         elif x < 0.35:
             kind = 'low_evidence'
             ok = False
-        elif x < 0.42 and tool == 'arriba':
+        elif x < 0.47 and tool == 'arriba':
             kind = 'antisense'
             if rng.random() < 0.5:
                 r['tstrand1'] = rng.choice(['.', '-' if r['dstrand'] == '+' else '+'])
@@ -282,6 +282,16 @@ def expected_verdict(case, r):
         return e['common'] <= o['max_common'] and e['unique'] >= o['min_unique']
     return e['sr1'] >= o['min_sr1'] and e['sr2'] >= o['min_sr2'] and CONF[e['conf']] >= CONF[o['min_conf']]
 
+def sense_ok(case, r):
+    """Arriba reports gene/fusion strand pairs: the fusion is a sense fusion of both partners iff the two members of each
+    pair agree ('.' = unknown never does).  parse_arriba documents that antisense / uninterpretable fusions are skipped."""
+    return case['tool'] != 'arriba' or (r['tstrand1'] == r['dstrand'] and r['tstrand2'] == r['astrand'])
+
+def expected_emit(case, r):
+    """python-only reading of the statement: the row's records belong in the GVF iff both genes are known, the evidence
+    reaches the thresholds and (Arriba) the fusion is sense on both sides"""
+    return r['di'] >= 0 and r['ai'] >= 0 and expected_verdict(case, r) and sense_ok(case, r)
+
 # ------------------------------------------------------------------------------------------ driver
 def canon(x):
     if isinstance(x, dict) and '__exc__' in x:
@@ -364,15 +374,35 @@ def analyse(ctx, results, st):
                 low = sum(1 for r in case['rows'] if not expected_verdict(case, r) and not (tool == 'arriba' and (r['di'] < 0 or r['ai'] < 0)))
                 if it.get('skipped', 0) and it.get('insufficient_evidence', 0) != low:
                     cli_fail = 'insufficient-evidence count %s, rows below thresholds %d' % (it.get('insufficient_evidence'), low)
+                if tool == 'arriba' and it.get('skipped', 0):
+                    anti = sum(1 for r in case['rows'] if r['di'] >= 0 and r['ai'] >= 0 and expected_verdict(case, r) and not sense_ok(case, r))
+                    if it.get('antisense_strand', 0) != anti:
+                        cli_fail = 'antisense count %s, rows with an antisense / unknown fusion strand on either side %d' % (it.get('antisense_strand'), anti)
             allowed = set()
             for r, a in zip(case['rows'], im['lib']):
-                if isinstance(a, list) and expected_verdict(case, r):
+                if isinstance(a, list) and expected_emit(case, r):
                     allowed.update(a)
             extra = [l for l in ac if l not in allowed]
             if extra:
-                cli_fail = 'CLI wrote a record of a row that is below the thresholds / failed: %s' % extra[0][:200]
+                bad_rows = [r for r, a in zip(case['rows'], im['lib']) if isinstance(a, list) and extra[0] in a]
+                cli_fail = 'CLI wrote a record of a row that is below the thresholds, antisense (%s) or failed: %s' % (
+                    ', '.join('%s/%s %s/%s' % (r['dstrand'], r['tstrand1'], r['astrand'], r['tstrand2']) for r in bad_rows[:2]), extra[0][:160])
+                fail_rows = bad_rows[:1]
+            else:
+                # converse: a reported sense fusion with sufficient evidence between known genes must be in the GVF
+                have = set(ac)
+                for r, a in zip(case['rows'], im['lib']):
+                    if isinstance(a, list) and expected_emit(case, r) and any(l not in have for l in a):
+                        cli_fail = 'the row %s:%d (%s/%s) -> %s:%d (%s/%s) is a sense fusion with sufficient evidence but its record is missing from the GVF' % (
+                            r['dgid'], r['L'], r['dstrand'], r['tstrand1'], r['agid'], r['R'], r['astrand'], r['tstrand2'])
+                        fail_rows = [r]
+                        break
         if cli_fail:
-            violations.append({'what': 'C15 %s CLI: %s' % (tool, cli_fail), 'replay_obj': {'kind': 'case', 'case': case}, 'no_input': False})
+            sub = dict(case)
+            if locals().get('fail_rows'):
+                sub['rows'] = fail_rows
+            fail_rows = None
+            violations.append({'what': 'C15 %s CLI: %s' % (tool, cli_fail), 'replay_obj': {'kind': 'case', 'case': sub}, 'no_input': False})
         elif ac != mc:
             st['diffs'].append({'case': case, 'impl': ac, 'model': mc, 'level': 'cli'})
         elif isinstance(ac, list) and im.get('tally') and mt:
